@@ -53,6 +53,16 @@
 //     (as_int for int64, as_double for float64).
 //   - Scopes without metrics and metrics without data points need not appear
 //     (the former) / must appear with zero points (the latter, it is an item).
+//   - Metrics the OTLP transform documents as errors (Sum / Histogram /
+//     ExponentialHistogram with an undefined or out-of-range temporality, nil
+//     or unknown aggregation) are generated in 1 case of 6 among valid ones:
+//     per the transform's and the exporters' documentation ("partial OTLP
+//     Metrics", "best effort upload of transformable metrics") Export must
+//     return an error on both transports, the valid metrics must still arrive
+//     exactly once under their scopes, the invalid ones must be absent, and
+//     both transports must still send equal payloads (one sending a request
+//     and the other none counts as different). The trace and log transforms
+//     have no error path (they return no error), so there is no analogue.
 //   - Zipkin: names are compared case-insensitively (the Zipkin v2 model
 //     lower-cases names), trace IDs as 128-bit numbers (16 or 32 hex digits),
 //     parentId must be absent for spans without a valid parent span ID, kind per
